@@ -424,7 +424,14 @@ class NumpyModel(types.ModuleType):
     def sqrt(self, a):
         used("sqrt (uninterpreted, congruence only)")
         if isinstance(a, (SReal, SInt)):
-            return SReal(SQRT(zr(a)))
+            tt = zr(a)
+            r = SQRT(tt)
+            ax = z3.Implies(tt >= 0, z3.And(r * r == tt, r >= 0))
+            if not any(ax.eq(p_) for p_ in sym.CTX.path):
+                sym.CTX.path.append(ax)
+            if valid(tt > 0):
+                sym.CTX.path.append(r > 0)         # sqrt of a positive number is positive (consequence of the axiom)
+            return SReal(r)
         if not isinstance(a, SArray):
             return _math.sqrt(a)
         return arr.ew1(lambda t: SQRT(arr.t_z3(t, True)) if not arr._num(t) else _math.sqrt(t), a, "real")
